@@ -31,10 +31,14 @@ Invocations ==
   \cup {[tool |-> "xrun", src |-> s, opt |-> "none", pos |-> "after", pre |-> e, xv |-> 0, via |-> "const"] : s \in SrcClass \ {"accepted"}, e \in PreTarget}
   \cup {[tool |-> "hexsim", src |-> "accepted", opt |-> "none", pos |-> "after", pre |-> "absent", xv |-> x, via |-> "const"] : x \in ExitVals}
   \cup {[tool |-> "hexsim", src |-> "accepted", opt |-> "none", pos |-> "after", pre |-> "absent", xv |-> x, via |-> "read"] : x \in ReadVals}
+  \cup {[tool |-> t, src |-> "accepted", opt |-> "none", pos |-> "after", pre |-> "absent", xv |-> x, via |-> "class"] : t \in {"xrun", "hexsim"}, x \in ReadVals}
 WellFormed(i) == ~(i.opt = "none" /\ i.pos = "before")      \* position is meaningless without the option
 
 Target(i) == CASE i.tool = "xrun" -> "a.bin" [] i.tool = "hexsim" -> "" [] i.opt = "none" -> "a.out" [] OTHER -> "out.bin"
 Status8(v) == v % 256
+\* the value the program passes to exit: a constant; the byte it read; or ("class") a verdict on the byte it read that tells
+\* a byte 0..255 (255 at end of input) from a sign-extended one: negative 9, below 128 1, 255 3, otherwise 2
+ExitValue(i) == IF i.via = "class" THEN (IF i.xv < 128 THEN 1 ELSE IF i.xv = 255 THEN 3 ELSE 2) ELSE i.xv
 
 VARIABLES inv, phase, status, diag, created, modified, targetIsBinary
 vars == <<inv, phase, status, diag, created, modified, targetIsBinary>>
@@ -43,7 +47,7 @@ Init == /\ inv \in {i \in Invocations : WellFormed(i)}
         /\ phase = "start" /\ status = -1 /\ diag = FALSE /\ created = {} /\ modified = {} /\ targetIsBinary = FALSE
 Accept == /\ phase = "start" /\ inv.src = "accepted"
           /\ phase' = "done" /\ diag' = FALSE
-          /\ status' = IF inv.tool \in {"xrun", "hexsim"} THEN Status8(inv.xv) ELSE 0
+          /\ status' = IF inv.tool \in {"xrun", "hexsim"} THEN Status8(ExitValue(inv)) ELSE 0
           /\ created' = IF Target(inv) # "" /\ inv.pre = "absent" THEN {Target(inv)} ELSE {}
           /\ modified' = IF Target(inv) # "" /\ inv.pre = "present" THEN {Target(inv)} ELSE {}
           /\ targetIsBinary' = (Target(inv) # "")
@@ -64,7 +68,7 @@ OutputWhereAsked    == (phase = "done" /\ inv.tool \in Compilers /\ status = 0) 
 \* conformance of one observed run: obs = [status, stderr, created, modified, targetok]
 Conforms(i, obs) ==
   IF i.src = "accepted"
-  THEN /\ obs.status = (IF i.tool \in {"xrun", "hexsim"} THEN Status8(i.xv) ELSE 0)
+  THEN /\ obs.status = (IF i.tool \in {"xrun", "hexsim"} THEN Status8(ExitValue(i)) ELSE 0)
        /\ ~obs.stderr
        /\ {obs.created[k] : k \in 1..Len(obs.created)} = (IF Target(i) # "" /\ i.pre = "absent" THEN {Target(i)} ELSE {})
        /\ {obs.modified[k] : k \in 1..Len(obs.modified)} = (IF Target(i) # "" /\ i.pre = "present" THEN {Target(i)} ELSE {})
